@@ -40,6 +40,7 @@ P1 = {
   use iso_c_binding
   use ExtLib
   implicit none
+  include 'limits.inc'
   type, extends(root_t) :: child1_t
     !! child one
     type(leaf_t) :: l1
@@ -125,6 +126,9 @@ end module base_c
     "src/gamma.f90": """module gamma
   !! module gamma
   use base_a
+  use petsc, only: pa
+  use PETSC, only: pb
+  use Petsc, only: pc
   implicit none
   type, extends(root_t) :: child3_t
     !! child three
@@ -171,6 +175,10 @@ PAGES = {
     "pages/sub/three.md": "title: Three\n\nthree\n",
 }
 P2 = dict(P2, **PAGES)
+# an include file found both beside the including source file and in a configured include directory: the one beside wins, always
+P1["src/limits.inc"] = "integer, parameter :: lim_beside = 1\n!! the limit kept beside the source\n"
+P1["inc/limits.inc"] = "integer, parameter :: lim_incdir = 2\n!! the limit kept in the include directory\ninteger :: only_in_incdir\n"
+P1["inc2/limits.inc"] = "integer, parameter :: lim_incdir2 = 3\n"
 PROJECTS = {"P1": P1, "P2": P2, "P3": P3}
 # unqualified references from the project-wide context; `stack` names a type and an interface, `same` several procedures
 FRONT = "Front page. [[stack]] [[root_t]] [[shared]] [[main]] [[gamma]] [[same]] [[other]] [[one]] [[nosuch]]\n"
@@ -325,7 +333,7 @@ def fresh_process_runs(st: Stats, pname, runs):
     fordrun.write_tree(root, PROJECTS[pname])
     snaps = {}
     for (seed, par, gdir) in runs:
-        (root / "proj.md").write_text("project: fresh\npreprocess: false\ngraph: true\nsearch: false\n" + f"parallel: {par}\n" + ("graph_dir: ./graphs\n" if gdir else "") + ("page_dir: ./pages\n" if any(f.startswith("pages/") for f in PROJECTS[pname]) else "")
+        (root / "proj.md").write_text("project: fresh\npreprocess: false\ngraph: true\nsearch: false\ninclude: ./inc\n         ./inc2\n" + f"parallel: {par}\n" + ("graph_dir: ./graphs\n" if gdir else "") + ("page_dir: ./pages\n" if any(f.startswith("pages/") for f in PROJECTS[pname]) else "")
                                       + "creation_date: DATE\nyear: 2000\n\n" + FRONT)
         env = dict(os.environ, PYTHONHASHSEED=str(seed), PYTHONPATH=str(core.REPO), FORD_DEBUGGING="1")
         out = root / "doc"
